@@ -130,6 +130,109 @@ var (
 	ctxPrefix = ""
 )
 
+// indepGS is the encoding of a graphsync-filecoin value written down without
+// the library: the protocol ID as a varint, then the dag-cbor map of the three
+// fields in schema order (PieceCID as a tag-42 link).
+func indepGS(g *metadata.GraphsyncFilecoinV1) []byte {
+	hdr := func(major byte, n int) []byte {
+		switch {
+		case n < 24:
+			return []byte{major<<5 | byte(n)}
+		case n < 256:
+			return []byte{major<<5 | 24, byte(n)}
+		default:
+			return []byte{major<<5 | 25, byte(n >> 8), byte(n)}
+		}
+	}
+	b := varint.ToUvarint(uint64(multicodec.TransportGraphsyncFilecoinv1))
+	b = append(b, 0xa3)
+	b = append(append(b, hdr(3, len("PieceCID"))...), "PieceCID"...)
+	cb := g.PieceCID.Bytes()
+	b = append(b, 0xd8, 0x2a)
+	b = append(append(b, hdr(2, len(cb)+1)...), 0x00)
+	b = append(b, cb...)
+	bl := func(v bool) byte {
+		if v {
+			return 0xf5
+		}
+		return 0xf4
+	}
+	b = append(append(b, hdr(3, len("VerifiedDeal"))...), "VerifiedDeal"...)
+	b = append(b, bl(g.VerifiedDeal))
+	b = append(append(b, hdr(3, len("FastRetrieval"))...), "FastRetrieval"...)
+	b = append(b, bl(g.FastRetrieval))
+	return b
+}
+
+// gsRoundTrip encodes metadata holding one graphsync-filecoin value, compares
+// the bytes with the independent encoding, decodes them and compares the
+// fields of what comes back with the original's. "" when all is well.
+func gsRoundTrip(pc cid.Cid, verified, fast bool) string {
+	orig := &metadata.GraphsyncFilecoinV1{PieceCID: pc, VerifiedDeal: verified, FastRetrieval: fast}
+	want := indepGS(orig)
+	md := mdCtx.New(&metadata.GraphsyncFilecoinV1{PieceCID: pc, VerifiedDeal: verified, FastRetrieval: fast})
+	got, err := md.MarshalBinary()
+	if err != nil {
+		return "encoding failed: " + err.Error()
+	}
+	if !bytes.Equal(got, want) {
+		return fmt.Sprintf("encoding of piece CID %s (verified %v, fast %v) is %x, written down independently it is %x", pc, verified, fast, got, want)
+	}
+	back := mdCtx.New()
+	if err := back.UnmarshalBinary(append([]byte(nil), got...)); err != nil {
+		return "decoding failed: " + err.Error()
+	}
+	g, ok := back.Get(multicodec.TransportGraphsyncFilecoinv1).(*metadata.GraphsyncFilecoinV1)
+	if !ok || g == nil {
+		return "no graphsync-filecoin protocol after the round trip"
+	}
+	if !g.PieceCID.Equals(pc) || g.VerifiedDeal != verified || g.FastRetrieval != fast {
+		return fmt.Sprintf("round trip of piece CID %s (verified %v, fast %v) returns piece CID %s (verified %v, fast %v)", pc, verified, fast, g.PieceCID, g.VerifiedDeal, g.FastRetrieval)
+	}
+	return ""
+}
+
+// checkPieceSequences: graphsync-filecoin values encoded one after the other,
+// for every ordered pair of piece CIDs of an alphabet in which CIDs share their
+// digest and differ in version or codec, or share version and codec and differ
+// in the digest, under equal and different flags: A, B, A.
+func checkPieceSequences(r *vp.Recorder) {
+	h1, _ := multihash.Sum([]byte("piece-one"), multihash.SHA2_256, -1)
+	h2, _ := multihash.Sum([]byte("piece-two"), multihash.SHA2_256, -1)
+	pcs := []cid.Cid{
+		cid.NewCidV0(h1), cid.NewCidV1(cid.DagProtobuf, h1), cid.NewCidV1(cid.Raw, h1), cid.NewCidV1(cid.FilCommitmentUnsealed, h1), cid.NewCidV1(cid.FilCommitmentSealed, h1),
+		cid.NewCidV0(h2), cid.NewCidV1(cid.FilCommitmentUnsealed, h2),
+	}
+	for i, a := range pcs {
+		for j, b := range pcs {
+			for fa := 0; fa < 4; fa++ {
+				for fb := 0; fb < 4; fb++ {
+					key := fmt.Sprintf("piece-sequence|%s%d,%d|flags%d,%d", ctxPrefix, i, j, fa, fb)
+					if !r.Mine(key) {
+						continue
+					}
+					r.Eval(key, i != j || fa != fb)
+					for step, x := range []struct {
+						c cid.Cid
+						f int
+					}{{a, fa}, {b, fb}, {a, fa}} {
+						var why string
+						if p, m := vp.Guard(func() { why = gsRoundTrip(x.c, x.f&1 != 0, x.f&2 != 0) }); p {
+							r.Violation("piece-sequence:panic", key, m, nil)
+							break
+						}
+						if why != "" {
+							r.Violation("piece-sequence:value-encoded-after-another-differs", key, fmt.Sprintf("step %d of the sequence %s, %s, %s: %s", step+1, a, b, a, why), nil)
+							break
+						}
+					}
+					r.Outcome("piece-sequence-ok")
+				}
+			}
+		}
+	}
+}
+
 func checkCollection(r *vp.Recorder, ps []proto, distinctIDs bool) []byte {
 	key := "coll|" + ctxPrefix + labels(ps)
 	if !r.Mine(key) {
@@ -150,6 +253,10 @@ func checkCollection(r *vp.Recorder, ps []proto, distinctIDs bool) []byte {
 		b, err := ps[i].mk().MarshalBinary()
 		if err != nil {
 			panic(err)
+		}
+		if g, ok := ps[i].mk().(*metadata.GraphsyncFilecoinV1); ok && !bytes.Equal(b, indepGS(g)) {
+			r.Violation("encode:graphsync-differs-from-the-independent-encoding", key, fmt.Sprintf("%s encodes as %x, written down independently it is %x", p.label, b, indepGS(g)), nil)
+			return nil
 		}
 		parts = append(parts, enc{p.id, b})
 	}
@@ -576,6 +683,9 @@ func TestCheck(t *testing.T) {
 			checkCollection(r, []proto{pGateway, gp, pBitswap}, true)
 		}
 	}
+
+	// (f) graphsync-filecoin values encoded one after the other
+	checkPieceSequences(r)
 
 	// decoder inputs
 	dec := &decoder{r: r, iso: &vp.Isolate{}}
